@@ -242,6 +242,12 @@ class Effects:
                     return {F}, d - {F}
                 fn.unknown.append(ast.unparse(e)[:50])
                 return {F}, set()
+            if isinstance(f, ast.Call) and e.args and f.args and ((isinstance(f.func, ast.Attribute) and f.func.attr in ("wraps", "update_wrapper")) or (isinstance(f.func, ast.Name) and f.func.id == "wraps")):
+                # functools.wraps(wrapped)(wrapper) returns `wrapper` itself after a *shallow* copy of wrapped.__dict__:
+                # mutable attributes (e.g. the __info__ dict) are then shared between the two functions
+                p, c = pc(e.args[0])
+                wp, wc = pc(f.args[0])
+                return p, (c | deepen(wp) | wc) - {F}
             return {F}, set()
 
         def subst(call, callee):
